@@ -2,7 +2,7 @@
    [run cfg st0 rs] is the state after ANY request sequence rs (API GET / DELETE with raw query arguments, value changes,
    clock advances) from ANY store and clock with an empty cache: so "for every reachable state of the sample cache".
    [abstract] (Spec.v) says which effective request the raw arguments denote (defaults and validation). *)
-From QT Require Import C18.Spec C18.SortThm C18.ApiThm C18.CacheThm C18.MainThm.
+From QT Require Import C18.Spec C18.SortThm C18.ApiThm C18.CacheThm C18.MainThm C18.Interleave C18.InterleaveThm C18.SegmentsThm.
 Open Scope Z_scope.
 
 (* a range query answers exactly the stored samples of that port with from <= time < to, oldest first, at most
@@ -101,6 +101,52 @@ Theorem C18_run_refines_spec : forall cfg rs st0,
 Proof. exact run_refines_spec. Qed.
 Print Assumptions C18_run_refines_spec.
 
+(* ---- requests that overlap on a driver whose calls suspend (Interleave.v: a request = start / driver call / finish) ---- *)
+
+(* after ANY interleaving of segments (any number of requests in flight) whose schedule satisfies [sched_ok] — the clock is
+   not advanced while a request is suspended, and the removal of a DELETE runs with the port's cache still empty and no
+   suspended query holding the port's live cache dict — every cached entry is older than the cache age and equals what the
+   store answers now *)
+Theorem C18_overlap_cache_invariant : forall cfg es st0,
+  0 <= cfg_min_age cfg -> st_cache st0 = [] -> sched_ok cfg (istate_of st0) es ->
+  cache_ok cfg (i_st (fst (irun cfg (istate_of st0) es))).
+Proof. exact (fun cfg es st0 A E S => proj1 (irun_keeps_invariant cfg es (istate_of st0) A (J_initial cfg st0 E) S)). Qed.
+Print Assumptions C18_overlap_cache_invariant.
+
+(* hence a by-timestamp query that runs alone after any such overlapping history answers exactly the specification *)
+Theorem C18_by_timestamp_after_overlaps : forall cfg st0 es p q k tss,
+  0 <= cfg_min_age cfg -> st_cache st0 = [] -> sched_ok cfg (istate_of st0) es ->
+  let s := fst (irun cfg (istate_of st0) es) in
+  abstract cfg (st_now (i_st s)) (ApiGet p q) = AByTimestamp p k tss ->
+  snd (istep cfg s (ISeq (ApiGet p q))) = REntries (by_timestamp_spec (st_store (i_st s)) p k tss).
+Proof. exact by_timestamp_after_overlaps. Qed.
+Print Assumptions C18_by_timestamp_after_overlaps.
+
+(* the DELETE premise holds whenever the removal follows the invalidation directly (no suspension in between) *)
+Theorem C18_removal_after_invalidation_is_clean : forall cfg s id p q from to,
+  J cfg s -> parse_delete cfg p q = PDOk from to ->
+  event_ok (fst (istep cfg s (IStart id (ApiDelete p q)))) (IDriver id).
+Proof. exact start_then_driver_clean. Qed.
+Print Assumptions C18_removal_after_invalidation_is_clean.
+
+(* the premise is decidable; the harness evaluates [sched_okb] on every schedule it runs *)
+Theorem C18_sched_okb_sound : forall cfg es s, sched_okb cfg s es = true -> sched_ok cfg s es.
+Proof. exact sched_okb_sound. Qed.
+Print Assumptions C18_sched_okb_sound.
+
+(* a request that runs alone is the composition of its three segments: the sequential model above IS the interleaved
+   model on schedules without overlap *)
+Theorem C18_alone_is_three_segments : forall cfg s id r,
+  fly_get (i_fly s) id = None ->
+  let s3 := fst (irun cfg s [IStart id r; IDriver id; IFinish id]) in
+  let outs := snd (irun cfg s [IStart id r; IDriver id; IFinish id]) in
+  let s' := fst (istep cfg s (ISeq r)) in
+  let o := snd (istep cfg s (ISeq r)) in
+  i_st s3 = i_st s' /\ i_gens s3 = i_gens s' /\ same_flights (i_fly s3) (i_fly s)
+  /\ (outs = [RNone; RNone; o] \/ outs = [o; ROther; ROther]).
+Proof. exact alone_is_three_segments. Qed.
+Print Assumptions C18_alone_is_three_segments.
+
 (* non-vacuity: the premises are met by concrete requests; a cached answer is served (after the first request the cache
    holds timestamp 1500) in the request's order, with the duplicate, and after DELETE the cache is gone *)
 Example C18_nonvacuous :
@@ -122,4 +168,21 @@ Example C18_nonvacuous :
   /\ st_cache (fst (run cfg st0 [ApiGet 1 (byts [1500])])) = [(1, 1500, Some (VNum 6))]
   /\ st_store (fst (run cfg st0 [ValueChange 1 (Some 5); ApiDelete 1 (range (QInt 2000) (QInt 3000) QAbsent)]))
      = [(1, 1000, 6); (3, 2000, 0); (1, 3000, -15); (1, 1700000000000, 5)].
+Proof. vm_compute. repeat split. Qed.
+
+(* non-vacuity of the overlap theorems: a by-timestamp query (id 1) suspended after its driver call while a DELETE (id 2)
+   covering its answer runs to the end; the schedule is admissible, the suspended query still answers the pre-deletion
+   sample (it overlaps the DELETE), its cache write goes to the popped dict, and the same question asked afterwards
+   gets the post-deletion answer *)
+Example C18_overlap_nonvacuous :
+  let cfg := {| cfg_ports := [(1, (KNum, true))]; cfg_min_age := 3600000; cfg_real_ms := 1546304400000 |} in
+  let st0 := {| st_store := [(1, 1000, 6); (1, 2000, 10); (1, 3000, -15)]; st_cache := []; st_now := 1700000000000 |} in
+  let byts l := {| q_from := QAbsent; q_to := QAbsent; q_limit := QAbsent; q_timestamps := Some (map QInt l) |} in
+  let del f t := {| q_from := QInt f; q_to := QInt t; q_limit := QAbsent; q_timestamps := None |} in
+  let es := [IStart 1 (ApiGet 1 (byts [2500])); IDriver 1; IStart 2 (ApiDelete 1 (del 2000 3000)); IDriver 2; IFinish 1;
+             IFinish 2; ISeq (ApiGet 1 (byts [2500]))] in
+  sched_okb cfg (istate_of st0) es = true
+  /\ snd (irun cfg (istate_of st0) es)
+     = [RNone; RNone; RNone; RNone; REntries [Some (2500, VNum 10)]; RDone; REntries [Some (2500, VNum 6)]]
+  /\ st_cache (i_st (fst (irun cfg (istate_of st0) es))) = [(1, 2500, Some (VNum 6))].
 Proof. vm_compute. repeat split. Qed.
